@@ -5,7 +5,7 @@
 //! a unique 64-bit id, so a recovered page names the write it came from; observation storages are
 //! pre-filled with a sentinel, so "untouched", "all-zero page applied" and "image X applied" differ.
 //!
-//! Build phase: 7 fixed minimal histories (one per defect class seen so far) + random sequences of
+//! Build phase: 8 fixed minimal histories (one per defect class seen so far) + random sequences of
 //! frame writes (write_frame, write_frame_with_file_id, write_frames_batch[_no_sync],
 //! write_undo_frame, WalStoragePerTable::flush_wal_for_table), `rotate_segment`, `truncate`,
 //! `checkpoint`, the Database-style "rotate + replay closed + remove closed" cycle, drop +
@@ -723,8 +723,10 @@ impl Seq {
             12 => Op::Sync,
             13 => Op::Observe,
             14 => {
-                let kind = self.rng.below(10);
-                if kind < 6 {
+                let kind = self.rng.below(13);
+                if kind >= 10 {
+                    Op::Torn(Torn::FlipMid { pick: self.rng.usize(0, 64), at: *self.rng.pick(&[0usize, 8, 20, HDR, HDR + 100, FRAME - 1]) })
+                } else if kind < 6 {
                     Op::Torn(Torn::Cut { back: self.rng.usize(1, 2 * FRAME) })
                 } else if kind < 9 {
                     let len = *self.rng.pick(&[1usize, 31, 32, 33, 5000, FRAME - 1, FRAME, FRAME + 100]);
@@ -1009,6 +1011,26 @@ impl Seq {
                     }
                     Torn::Cut { .. } => {
                         self.log.push("crash (nothing to cut) + Wal::open".into());
+                    }
+                    Torn::FlipMid { pick, at } if n >= 2 && len >= n * FRAME => {
+                        let i = pick % (n - 1);
+                        let off = i * FRAME + at.min(FRAME - 1);
+                        let mut bytes = std::fs::read(&path).unwrap();
+                        bytes[off] ^= 0x5A;
+                        std::fs::write(&path, &bytes).unwrap();
+                        self.log.push(format!("crash: byte {} of frame {} of segment {} damaged ({} intact frames behind it) + Wal::open", at.min(FRAME - 1), i, cur, n - 1 - i));
+                        let gone: Vec<Fr> = self.sh.segs.get_mut(&cur).unwrap().drain(i..).collect();
+                        for g in gone {
+                            self.sh.discarded.insert(g.img);
+                        }
+                        // what lies behind the damaged frame is no longer part of the log; an implementation may
+                        // leave those bytes in the file as long as they are never replayed
+                        self.sh.garbage_tail_injected = true;
+                        self.sh.slack.insert(cur);
+                        self.res.c("mid_log_damage_steps", 1);
+                    }
+                    Torn::FlipMid { .. } => {
+                        self.log.push("crash (fewer than two frames: nothing to damage) + Wal::open".into());
                     }
                     Torn::Garbage { len: l, seed } => {
                         let g = Rng::new(seed).bytes(l);
@@ -1481,6 +1503,9 @@ enum Torn {
     Cut { back: usize },
     Garbage { len: usize, seed: u64 },
     Zeros { len: usize },
+    /// damage one byte of a frame that is NOT the last one of the current segment (media error / torn
+    /// write in the middle): the frames after it are intact on disk but lie behind an invalid frame
+    FlipMid { pick: usize, at: usize },
 }
 
 enum Op {
@@ -1556,6 +1581,7 @@ fn scenarios() -> Vec<(&'static str, bool, bool, Vec<Op>)> {
         ("truncate_with_buffered_frames", false, false, vec![Op::Mode(1), w(1, 1), Op::Truncate { sync_first: false }]),
         ("checkpoint_with_buffered_frames", true, false, vec![Op::Mode(1), Op::Write { api: 0, fid: 0, page: 1, dbs: NPAGES }, Op::Checkpoint { sync_first: false }]),
         ("torn_tail_then_reopen_and_append", false, false, vec![w(1, 1), w(1, 2), Op::Torn(Torn::Cut { back: FRAME - 100 }), w(1, 3), Op::Observe]),
+        ("mid_log_damage_then_reopen_and_append_fewer", false, false, vec![w(1, 1), w(1, 2), w(2, 1), w(2, 2), w(1, 3), Op::Torn(Torn::FlipMid { pick: 1, at: HDR + 100 }), w(1, 4), Op::Observe, Op::Reopen, Op::Observe]),
         ("two_segments_swept", false, true, vec![w(1, 1), w(2, 2), Op::Rotate, w(1, 3), w(3, 1)]),
     ]
 }
